@@ -11,29 +11,42 @@ from ..common import F, rat, rats, ints, ratss, parse_ratss, quiet
 PID = "C24"
 CLAIM = dict(
     design="3/C24",
-    technique="Lean 4 proof over a model of the mask logic and of the embedding [e_frozen | U_free]·W "
-              "(eigh / SVD enter as named contracts) + exact differential correspondence of masks and of the "
-              "masked assignments (SVD stubbed by a dyadic matrix) + property oracle on the real wannierise",
-    text="Theorems (every band count, spectrum, threshold, window position incl. edges cutting multiplets, explicit "
-         "frozen list; scalars in any commutative star-ring): frozen window inside outer window => frozen is a subset of "
+    technique="Lean 4 proof over a model of the mask logic, of the embedding [e_frozen | U_free]·W and of one iteration of "
+              "Kpoint_and_neighbours.update (calc_Z, Z-mixing, eigenvector choice, rotate_to_projections, localisation branch) "
+              "with eigh / SVD-polar / inv as abstract kernels carrying named contracts + exact differential correspondence "
+              "(masks; masked assignments; one real update step with the kernels stubbed by dyadic matrices) + property "
+              "oracle on the real wannierise",
+    text="Theorems (every band count, spectrum, threshold, window position incl. edges cutting multiplets, explicit frozen "
+         "list; scalars in any field with a star operation): frozen window inside outer window => frozen is a subset of "
          "selected (the assert cannot fire); free = selected minus frozen; the k-point object addresses exactly the "
          "selected bands; the embedding built by the two masked assignments has orthonormal columns when "
          "U_free^H U_free = 1; U = E W with W unitary has U^H U = 1, U U^H e_f = e_f for every frozen f, and zero rows "
-         "outside the selection; the same constraints survive a further polar orthogonalisation (localise branch). "
-         "Checked on the real code, not proved: that the iteration keeps U_free an isometry (eigh) and that the "
-         "matrix inverse in the localisation step exists; site-symmetric runs (thorough tier, diamond).",
-    note="Trusted: Lean kernel + Mathlib; the harness; numpy eigh/svd/inv contracts (checked numerically on every "
-         "run by the oracle).  PARTIAL: the update loop (Z matrix, eigenvector choice, localisation) is not modelled; "
-         "its effect on the property is only through the eigh/SVD contracts stated as hypotheses.",
+         "outside the selection; the same survives a polar orthogonalisation of a full-column-rank matrix.  "
+         "wannierise_invariant_all_iterations: for ANY number of iterations, any neighbour table, overlaps, projections "
+         "(rank-deficient ones included), phases, localise on/off, Z-mixing, the matrix held at every k-point after every "
+         "sweep has the three invariants, given the kernel contracts: eigh returns an orthonormal basis for a Hermitian "
+         "matrix (Z and A_free A_free^H are proved Hermitian), orthogonalize of a SQUARE matrix is unitary for every "
+         "argument, orthogonalize of a tall matrix of full column rank is an isometry with the same column space (E W is "
+         "shown to have full column rank); inv needs no contract.  Necessity: U=E W is an isometry iff W is unitary; a "
+         "legitimate SVD polar pair of a rank-deficient tall matrix can drop a frozen state (counterexample theorem) - "
+         "this is why the code orthogonalises the square matrix U_loc^H A.",
+    note="Trusted: Lean kernel + Mathlib; the harness; the kernel contracts (checked numerically on every run by the oracle). "
+         "PARTIAL: not modelled - the mix_ratio_u != 1 branch (declared untested by the code), site-symmetric symmetrisation "
+         "of U and Z (sitesym=True), the centre/spread bookkeeping and the convergence test; these are oracle-only.",
 )
 TRUSTED = [
     "modelled: wannierise mask logic (frozen/selected/free/deselected/assert), Kpoint_and_neighbours.selected, the masked "
-    "assignments U[frozen,:nf]=1, U[free,nf:]=U_free, rotate_to_projections' U[:]=0; U[selected]=U_loc.ZV",
-    "contract (hypothesis hUf): numpy.linalg.eigh returns orthonormal eigenvectors => get_max_eig output is an isometry",
-    "contract (hypothesis hW / hQ,hpolar): orthogonalize = polar factor from numpy.linalg.svd (unitary for square input; "
-    "isometry with the same column space for full-column-rank input)",
-    "not modelled (oracle only): calc_Z, update(localise) iteration, wcc phases, convergence logic, init='restart', "
-    "site-symmetric (sitesym=True) symmetrisation of U",
+    "assignments U[frozen,:nf]=1, U[free,nf:]=U_free, rotate_to_projections, __init__, one update() call (calc_Z with "
+    "freefree/freefrozen blocks, Zfrozen, Z-mixing, get_max_eig call, Mmn_loc_sumb, inv, both orthogonalize calls), and "
+    "the sweep structure of the loop (neighbours' matrices taken from the previous sweep)",
+    "contract eig_orthonormal: numpy.linalg.eigh returns orthonormal eigenvectors of a Hermitian matrix => any nvec <= n "
+    "columns (get_max_eig) form an isometry",
+    "contract polarSq_unitary: orthogonalize (U @ VT of numpy.linalg.svd) of a square matrix is unitary for EVERY argument, "
+    "rank-deficient ones included",
+    "contract polarTall_fullrank: orthogonalize of a tall matrix with a left inverse is an isometry Q with Q H = A, H "
+    "invertible; nothing is assumed for rank-deficient tall arguments",
+    "not modelled (oracle only): mix_ratio_u != 1, wcc phases / spreads, convergence logic, init='restart', "
+    "site-symmetric (sitesym=True) symmetrisation of U and Z",
     "select_window_degen is the C15 model (WB.C15.selectWindow); energies are dyadic so float comparisons are exact",
     "valid inputs = at every k: #frozen <= num_wann <= #selected and frozen window inside the outer window "
     "(otherwise the code raises; the raise of the frozen-inside-selected assert is compared with the model)",
@@ -383,6 +396,120 @@ def dyadic_matrix(rng, n, m, den=8, lo=-8, hi=8):
     return [[Fr(rng.randint(lo, hi), den) for _ in range(m)] for _ in range(n)]
 
 
+class _NPProxy:
+    """numpy with linalg.inv replaced (only inside kpoint_and_neighbours, only while one stubbed update runs)"""
+
+    def __init__(self, inv):
+        class _LA:
+            def __getattr__(self_, name):
+                return getattr(np.linalg, name)
+        la = _LA()
+        la.inv = inv
+        self.linalg = la
+
+    def __getattr__(self, name):
+        return getattr(np, name)
+
+
+def fmat(rows, n, m):
+    return np.array([[float(x) for x in r] for r in rows], dtype=float).reshape(n, m)
+
+
+def exact_rows(a):
+    return [[Fr(float(x)) for x in row] for row in np.asarray(a)]
+
+
+def update_lines(ctx, rng, lines, expect, tags):
+    """one real Kpoint_and_neighbours.update step with the kernels (get_max_eig, orthogonalize, numpy.linalg.inv) replaced
+    by stubs that return prescribed dyadic matrices and record their arguments: Z (argument of get_max_eig), the
+    argument of inv / of the square orthogonalize, and the returned U_opt_full are compared exactly with the model"""
+    import wannierberri.wannierisation.kpoint_and_neighbours as kmod
+    from wannierberri.symmetry.sawf import VoidSymmetrizer
+    for it in range(ctx.n(8, 40)):
+        nb = rng.randint(2, 5)
+        nnb = rng.choice([1, 2, 4])
+
+        def rand_masks():
+            fz = [rng.random() < 0.3 for _ in range(nb)]
+            fr = [(not f) and rng.random() < 0.75 for f in fz]
+            return fz, fr
+        for attempt in range(100):
+            frozen, free = rand_masks()
+            nfz, nfr = sum(frozen), sum(free)
+            if nfr >= 1 or nfz >= 1:
+                break
+        nw = rng.randint(max(nfz, 1), max(nfz + nfr, 1)) if nfz + nfr >= 1 else 1
+        if nw < nfz or nw > nfz + nfr:
+            continue
+        ng = nw - nfz
+        nbm = [rand_masks() for _ in range(nnb)]
+        frozen_nb = np.array([m[0] for m in nbm])
+        free_nb = np.array([m[1] for m in nbm])
+        M = [dyadic_matrix(rng, nb, nb, den=4, lo=-4, hi=4) for _ in range(nnb)]
+        wbs = {1: [Fr(1)], 2: [Fr(1, 4), Fr(3, 4)], 4: [Fr(1, 2), Fr(1, 2), Fr(3, 4), Fr(1, 4)]}[nnb]
+        amn = dyadic_matrix(rng, nb, nw, den=4, lo=-4, hi=4)
+        Mnp = np.array([fmat(m, nb, nb) for m in M]).astype(complex)
+        with quiet():
+            kp = kmod.Kpoint_and_neighbours(Mmn=Mnp, frozen=np.array(frozen), frozen_nb=frozen_nb, free=np.array(free),
+                                            free_nb=free_nb, wb=np.array([float(x) for x in wbs]),
+                                            bk=np.zeros((nnb, 3)), ikirr=0, symmetrizer_Zirr=VoidSymmetrizer(NK=1),
+                                            symmetrizer_Uirr=VoidSymmetrizer(NK=1), amn=fmat(amn, nb, nw).astype(complex))
+        fz = np.where(frozen)[0].tolist()
+        fr = np.where(free)[0].tolist()
+        zold = None
+        for step in range(2):
+            localise = rng.random() < 0.6
+            mix = None if (step == 0 or rng.random() < 0.3) else Fr(rng.choice([1, 3]), 4)
+            Unb = [dyadic_matrix(rng, nb, nw, den=4, lo=-4, hi=4) for _ in range(nnb)]
+            phase = [[Fr(rng.choice([1, 1, -1, 2]), 1) for _ in range(nnb)] for _ in range(nw)]
+            eo = dyadic_matrix(rng, nfr, ng, den=4, lo=-4, hi=4)
+            io = dyadic_matrix(rng, nw, nw, den=4, lo=-4, hi=4)
+            po = dyadic_matrix(rng, nw, nw, den=4, lo=-4, hi=4)
+            rec = {"orth": []}
+
+            def stub_eig(Z, nvec, n, _eo=eo):
+                rec["Z"] = np.array(Z)
+                rec["eig_dims"] = (nvec, n)
+                return fmat(_eo, nfr, ng).astype(complex)
+
+            def stub_orth(u, _po=po):
+                rec["orth"].append(np.array(u))
+                if len(rec["orth"]) == 1:
+                    return fmat(_po, nw, nw).astype(complex)
+                return np.array(u)
+
+            def stub_inv(a, _io=io):
+                rec["inv"] = np.array(a)
+                return fmat(_io, nw, nw).astype(complex)
+            saved = (kmod.get_max_eig, kmod.orthogonalize, kmod.np)
+            kmod.get_max_eig, kmod.orthogonalize, kmod.np = stub_eig, stub_orth, _NPProxy(stub_inv)
+            try:
+                with quiet():
+                    U, _, _ = kp.update([fmat(u, nb, nw).astype(complex) for u in Unb],
+                                        wcc_bk_phase=fmat(phase, nw, nnb).astype(complex), localise=localise,
+                                        mix_ratio=1.0 if mix is None else float(mix), mix_ratio_u=1.0)
+            finally:
+                kmod.get_max_eig, kmod.orthogonalize, kmod.np = saved
+            mid = rec["inv"] if localise else rec["orth"][0]
+            if max(np.abs(np.imag(rec["Z"])).max() if rec["Z"].size else 0, np.abs(np.imag(U)).max()) != 0:
+                ctx.mismatch("update returned imaginary parts for real input", dict(step=step))
+            mixing_used = mix is not None and zold is not None
+            line = " ".join([
+                "update", "1" if localise else "0", str(nb), str(nw), str(nnb), ints(fz), ints(fr),
+                ";".join(ints(np.where(frozen_nb[ib])[0]) for ib in range(nnb)),
+                ";".join(ints(np.where(free_nb[ib])[0]) for ib in range(nnb)),
+                ratss([row for m in M for row in m]), rats(wbs), ratss(amn),
+                (rat(mix) + "," + rat(1 - mix)) if mixing_used else "_",
+                ratss(zold) if mixing_used else "_",
+                ratss([row for u in Unb for row in u]), ratss(phase), ratss(eo) if nfr else "_", ratss(io), ratss(po)])
+            lines.append(line)
+            expect.append("|".join([ratss(exact_rows(np.real(rec["Z"]))) if nfr else "_",
+                                    ratss(exact_rows(np.real(mid))), ratss(exact_rows(np.real(U)))]))
+            tags.append(("update", it, step, localise, mixing_used, rec["eig_dims"] == (ng, nfr)))
+            ctx.count("corr.update." + ("localise" if localise else "rotate_to_projections") + (".zmix" if mixing_used else ""))
+            zold = exact_rows(np.real(rec["Z"]))
+
+
 def corr(ctx):
     import wannierberri.wannierisation.kpoint_and_neighbours as kmod
     rng = ctx.rng
@@ -463,6 +590,7 @@ def corr(ctx):
             expect.append(None)
             tags.append(("guard", case["sub_seed"], ik, raised, len(spectra)))
         ctx.count(f"corr.guard.{raised}")
+    update_lines(ctx, rng, lines, expect, tags)
     out = ctx.lean(lines)
     guard = {}
     for l, o, e, t in zip(lines, out, expect, tags):
@@ -473,6 +601,13 @@ def corr(ctx):
             if (mf, mr, mk, ma) != (cf, cr, ck, ca) or ms != mk:
                 ctx.mismatch(f"masks at k={t[2]}: model frozen|sel|free|ksel|assert={o} code frozen|free|selected={cf}|{cr}|{ck}",
                              dict(line=l, sub_seed=t[1]))
+        elif t[0] == "update":
+            ctx.case(signature=l, nontrivial=True)
+            mo, co = o.split("|"), e.split("|")
+            same = len(mo) == 3 and all(parse_ratss(a) == parse_ratss(b) for a, b in zip(mo, co))
+            if not same or not t[5]:
+                ctx.mismatch(f"update step (localise={t[3]}, Z-mixing={t[4]}, eig dims ok={t[5]}): model Z|mid|U = {o[:300]} "
+                             f"code = {e[:300]}", dict(line=l[:600]))
         elif t[0] in ("final", "embed"):
             ctx.case(signature=l, nontrivial=True)
             if parse_ratss(o) != parse_ratss(e):
